@@ -17,6 +17,7 @@ import (
 	"io"
 	"sort"
 	"strings"
+	"sync"
 )
 
 type heapElement struct {
@@ -65,12 +66,14 @@ func (h minHeap) IndexOf(element string) int {
 // _accuracy_ is the delta in the error rate
 // _sketch_ is the in-memory count-min sketch used to keep the estimated track of counts
 // _heap_ is a min heap
+// _lock_ is used to synchronize concurrent read/writes
 type TopK struct {
 	k         uint
 	errorRate float64
 	accuracy  float64
 	sketch    *CountMinSketch
 	heap      minHeap
+	lock      sync.RWMutex
 }
 
 // TopKElement is the struct used to return the results of the TopK
@@ -86,13 +89,16 @@ type TopKElement struct {
 func NewTopK(k uint, errorRate, accuracy float64) *TopK {
 	sketch, _ := NewCountMinSketchFromEstimates(errorRate, accuracy)
 	heap := &minHeap{}
-	return &TopK{k, errorRate, accuracy, sketch, *heap}
+	return &TopK{k: k, errorRate: errorRate, accuracy: accuracy, sketch: sketch, heap: *heap}
 }
 
 // Insert puts the _data_ (byte slice) in the TopK data structure with _count_
 // _data_ is the element to be inserted
 // _count_ is the count of the element
 func (t *TopK) Insert(data []byte, count uint64) {
+	t.lock.Lock()
+	defer t.lock.Unlock()
+
 	element := string(data)
 	if count <= 0 {
 		panic("count must be greater than zero")
@@ -114,6 +120,9 @@ func (t *TopK) Insert(data []byte, count uint64) {
 
 // Values returns the top _k_ elements in the TopK data structure
 func (t *TopK) Values() []TopKElement {
+	t.lock.Lock()
+	defer t.lock.Unlock()
+
 	var results []TopKElement
 	for i := len(t.heap) - 1; i >= 0; i-- {
 		results = append(results, TopKElement{t.heap[i].value, t.heap[i].frequency})
@@ -151,6 +160,9 @@ type topKJSON struct {
 
 // Export JSON marshals the TopK and returns a byte slice containing the data
 func (t *TopK) Export() ([]byte, error) {
+	t.lock.Lock()
+	defer t.lock.Unlock()
+
 	var sketch countMinSketchJSON
 	sketch.AllSum = t.sketch.allSum
 	sketch.Columns = t.sketch.columns
@@ -217,6 +229,9 @@ func (t *TopK) Equals(u *TopK) (bool, error) {
 // number of bytes written.
 // It can be used to write to disk (using a file stream) or to network.
 func (t *TopK) WriteTo(stream io.Writer) (int64, error) {
+	t.lock.Lock()
+	defer t.lock.Unlock()
+
 	err := binary.Write(stream, binary.BigEndian, uint64(t.k))
 	if err != nil {
 		return 0, err
